@@ -2,7 +2,7 @@
 from sqlite_dissect.file.database.page import BTreePage
 
 from ..gen import histories as H, sqlite_factory as F
-from . import dbcommon as C
+from . import dbcommon as C, specvalid as V
 
 ID = "C06"
 LEAN_MODULES = ["SqliteDissect.Properties.C06", "SqliteDissect.Properties.C16", "SqliteDissect.Properties.C01Tree"]
@@ -98,6 +98,9 @@ def run(ctx, n_quick=40, n_thorough=500):
                 ctx.oracle_fail("rejected", f"a database written by SQLite is rejected: {impl}", case, impl, "accepted")
                 continue
             check_census(ctx, db, b.path, case)
+            # (V) the page specification the tree theorems quantify over holds of the pages SQLite wrote
+            ctx.extra["pages_validating_the_spec"] = ctx.extra.get("pages_validating_the_spec", 0) + V.validate_pages(
+                ctx, b.path, case, max_pages=40 if ctx.thorough() else 14, max_page_size=65536 if ctx.thorough() else 8192)
         # versions of WAL histories: census per version against the model (dbstat only sees the newest state)
         r = ctx.rng
         kinds = ["freelist_drain", "grow_shrink", None, "ddl", "freelist_drain", "rootmove", None, "spill"]
